@@ -1,5 +1,5 @@
 """Which properties are claimed (source of MANIFEST.json, see gen_manifest.py)."""
-HOOK_COMMITS = []
+HOOK_COMMITS = ["782cf1a12103aa15851c93212c429c7a23e224eb"]
 _NOTE = ("Trusted: Lean kernel (+ propext, Classical.choice, Quot.sound), the hand-written model as far as the "
          "correspondence check exercises it, the Python harness and oracle; CPython/numba/numpy/scipy/sklearn are "
          "modelled, not verified. ")
